@@ -375,6 +375,7 @@ fn well_typed_call(src: &mut Src, sig: &crate::refeval::Sig, name: &str) -> (Str
     if sig.variadic.is_some() {
         n += src.below(4);
     }
+    let all_literal = src.chance(100);
     for i in 0..n {
         let tys: &[Ty] = if i < sig.params.len() { sig.params[i] } else { sig.variadic.unwrap() };
         let t = tys[src.below(tys.len())];
@@ -390,7 +391,7 @@ fn well_typed_call(src: &mut Src, sig: &crate::refeval::Sig, name: &str) -> (Str
         if sig.name == "to_number" && src.chance(128) {
             v = J::Str(crate::gen_doc::gen_jsonish(src));
         }
-        if src.chance(60) && !matches!(v, J::Num(crate::model::N::F(_))) {
+        if (all_literal || src.chance(60)) && !matches!(v, J::Num(crate::model::N::F(_))) {
             args.push(crate::print::spell_literal(&v, &mut crate::print::Spell::plain()));
         } else {
             doc.insert(format!("a{}", i), v);
@@ -411,6 +412,31 @@ fn well_typed(src: &mut Src, st: &mut Stats, _env: &Env) -> CaseResult {
     let (expr, dt) = well_typed_call(src, sig, sig.name);
     st.eval();
     check_cell("well-typed", &expr, &dt, st)?;
+    // a call whose arguments are all literals does not depend on the current node: behind a
+    // pipe or a dot whose left side is null (or anything else) it is looked up, validated and
+    // evaluated exactly as on its own -- also when it is wrong (the table's error cells)
+    if !expr.contains("a0") && !expr.contains("a1") && !expr.contains("a2") && !expr.contains("a3") && !expr.contains("a4") {
+        let variants = [expr.clone(), expr.replacen('(', "(`1`, ", 1), format!("{}_x{}", sig.name, &expr[sig.name.len()..]), expr.replacen('(', "(&@, ", 1)];
+        let call = &variants[src.below(variants.len())];
+        let plain = search_text(call, &dt);
+        let ctx = *src.pick(&["missing | {C}", "missing.{C}", "`null` | {C}", "pad | {C}", "[missing | {C}][0]", "missing.x | {C}", "(missing || `null`) | {C}", "missing[0] | {C}", "{k: missing | {C}}.k"]);
+        let wrapped = ctx.replace("{C}", call);
+        let got = search_text(&wrapped, &dt);
+        let same = match (&plain, &got) {
+            (ImpOut::Ok(a), ImpOut::Ok(b2)) => a.deep_eq(b2),
+            (ImpOut::SearchErr(a), ImpOut::SearchErr(b2)) => a.class == b2.class,
+            _ => false,
+        };
+        if !same {
+            return Err(Failure::new(
+                "well-typed",
+                "call-outcome-depends-on-left-side",
+                format!("{} gives {} but {} gives {}", call, plain.brief(), wrapped, got.brief()),
+                json!({"expression": wrapped, "document": dt}),
+            ));
+        }
+        st.class("literal-call-behind-null");
+    }
     if st.nontrivial(&format!("{}\u{0}{}", expr, dt)) {
         st.sample(|| json!({"expression": expr, "document": dt}));
     }
